@@ -116,6 +116,11 @@ def jobs(tier):
             nm = "C20.eexist.ac%d%d.dup%d.run%d" % (ac1, ac2, dup2, run)
             js.append(l2_job(nm, "l2/c20_eexist.c", defines={"AC1": ac1, "AC2": ac2, "DUP2": dup2, "RUN": run},
                              symbolic=["errno left by callbacks (int)"], bounds=nm, unwind=13, fp_extra=FP_EXTRA))
+        for kind, how in ((0, 0), (0, 1), (1, 0)):
+            js.append(l2_job("C20.three.k%d.h%d" % (kind, how), "l2/c20_three.c", defines={"KIND": kind, "HOW": how},
+                             symbolic=["errno left by callbacks (int)"],
+                             bounds="three %s of one module registered middle/low/high, the middle one %s" %
+                                    (("auto-close descriptors", "timers")[kind], ("is deregistered", "fires as a one-shot")[how]), unwind=13, fp_extra=FP_EXTRA))
         return js
     for k in (1, 2, 3, 4, 5, 6, 7):
         for r in range(9):
@@ -163,6 +168,11 @@ def jobs(tier):
         nm = "C20.eexist.ac%d%d.dup%d.run%d" % (ac1, ac2, dup2, run)
         js.append(l2_job(nm, "l2/c20_eexist.c", defines={"AC1": ac1, "AC2": ac2, "DUP2": dup2, "RUN": run},
                          symbolic=["errno left by callbacks (int)"], bounds=nm, unwind=13, fp_extra=FP_EXTRA))
+    for kind, how in ((0, 0), (0, 1), (1, 0)):
+        js.append(l2_job("C20.three.k%d.h%d" % (kind, how), "l2/c20_three.c", defines={"KIND": kind, "HOW": how},
+                         symbolic=["errno left by callbacks (int)"],
+                         bounds="three %s of one module registered middle/low/high, the middle one %s" %
+                                (("auto-close descriptors", "timers")[kind], ("is deregistered", "fires as a one-shot")[how]), unwind=13, fp_extra=FP_EXTRA))
     seen, out = set(), []
     for j in js:
         if j.name not in seen:
